@@ -1,6 +1,7 @@
 import ScyllaVerif.Model.Util
 import ScyllaVerif.Model.Carrier
 import ScyllaVerif.Model.Row
+import ScyllaVerif.Model.C17Bind
 /-! Line-protocol driver for C17.
 
 Segments of a case are separated by ` | `, operations of a `row` case by ` ; `.  Prefix notation, explicit counts.
@@ -24,6 +25,10 @@ Cases (`<label>` names the concrete Rust type on the harness side and is ignored
   `pager <target> <ext> <skip> | <prepared cols> | <page> | …`  the pager's typed stream over pages with their own
        metadata (cols ::= n (<name> <type>)…, page ::= <rows> nometa | <rows> <newid> cols)
        → `ctor:TypeCheck` | `rows=<delivered> fin=end|TypeCheck`
+  `bindrow seq|tup3|map | name T ; name T … | [name] <ref> V ; …`  SerializeRow through from_serializable
+       → `ok count=… cells=… <digest>` | `err WrongColumnCount` | `err ValueMissingForColumn n` | `err NoColumnWithName n`
+         | `err col n <class> <path>` | `err TooManyValues`
+  `frame <hex>`  new_from_frame → `ok count=… cells=… rest=<unread> <digest>` | `err`
   `bind <path> n…` rows of ~65535 values through from_serializable (slice_i32 / slice_opt / vec_str / map), a
        RowWriter used directly (writer), append_serialize_row (append a b c / mixed n k), add_value (add n)
        → `ok count=<count> cells=<parsed> <digest>` | `err TooManyValues`
@@ -361,6 +366,61 @@ def runBind (toks : List String) : String :=
     else "bad-case"
   | _ => "bad-case"
 
+/-! ### `bindrow` / `frame`: row-level binding and `new_from_frame` -/
+
+open ScyllaVerif.C17Bind in
+def bindErrStr : BindErr → String
+  | .wrongColumnCount => "err WrongColumnCount"
+  | .valueMissingForColumn n => "err ValueMissingForColumn " ++ n
+  | .noColumnWithName n => "err NoColumnWithName " ++ n
+  | .column n e => "err col " ++ n ++ " " ++ serErrStr e
+  | .tooManyValues => "err TooManyValues"
+
+def splitSemi (seg : String) : List String :=
+  if seg.trimAscii.toString == "-" then [] else (seg.splitOn " ; ").map (fun s => s.trimAscii.toString)
+
+open ScyllaVerif.C17Bind in
+def parseBindCol (s : String) : Option Col :=
+  match words s with
+  | name :: rest => (tyOf (" ".intercalate rest)).map fun t => ⟨name, t⟩
+  | [] => none
+
+open ScyllaVerif.C17Bind in
+def runBindRow (case : String) : String :=
+  match segs case with
+  | [hd, cseg, vseg] =>
+    match words hd, (splitSemi cseg).mapM parseBindCol with
+    | ["bindrow", kind], some cols =>
+      let rv : Option RowVal :=
+        if kind == "map" then
+          ((splitSemi vseg).mapM fun s => match words s with
+            | name :: _ref :: rest => (valOf (" ".intercalate rest)).map fun v => (name, v)
+            | _ => none).map RowVal.byName
+        else
+          ((splitSemi vseg).mapM fun s => match words s with
+            | _ref :: rest => valOf (" ".intercalate rest)
+            | _ => none).map RowVal.seq
+      match rv with
+      | none => "bad-case"
+      | some rv =>
+        match fromSerializable rv cols with
+        | .error e => bindErrStr e
+        | .ok sv => s!"ok count={sv.count} {cellsStr sv.bytes} {digest sv.bytes}"
+    | _, _ => "bad-case"
+  | _ => "bad-case"
+
+open ScyllaVerif.C17Bind in
+def runFrame (toks : List String) : String :=
+  match toks with
+  | [h] =>
+    match parseHex h with
+    | none => "bad-case"
+    | some buf =>
+      match newFromFrame buf with
+      | none => "err"
+      | some (sv, rest) => s!"ok count={sv.count} {cellsStr sv.bytes} rest={rest.length} {digest sv.bytes}"
+  | _ => "bad-case"
+
 /-! ### `pager`: pages with differing result metadata through the typed stream -/
 
 def parseCols (toks : List String) : Option (List (String × CqlTy)) :=
@@ -418,7 +478,8 @@ def runPager (case : String) : String :=
   | hd :: prep :: pageSegs =>
     match words hd, parseCols (words prep), pageSegs.mapM parsePage with
     | ["pager", target, ext, _skip], some prepared, some pages =>
-      match targetCheck target with
+      -- `S/<target>`: the same stream obtained through Session::execute_iter
+      match targetCheck (if target.startsWith "S/" then (target.drop 2).toString else target) with
       | none => "bad-case"
       | some check =>
         match typedStream check (effectiveCols prepared (ext == "1") pages) with
@@ -477,6 +538,8 @@ def run (case impl : String) : String :=
       | _, _ => "bad-case"
     | _ => "bad-case"
   | some "pager" => runPager case
+  | some "bindrow" => runBindRow case
+  | some "frame" => runFrame (words case).tail
   | some "rows" =>
     match segs case with
     | [_, cseg, tseg, nseg] =>
